@@ -92,6 +92,7 @@ func c18(r *core.Run) {
 	r.Rule("C18/R3", "delete is recipient-only: the inbox (leading) component of the deleted key ⊵ signer only")
 	r.Rule("C18/R4", "the only handler that writes Notification-typed records is notifications.MsgCreateNotification")
 	r.Rule("C18/R6", "success implies the effect: a successful create has written the notification, a successful delete has deleted it")
+	r.Rule("C18/R7", "every listed sender is blocked: the loop over msg.ToBlock that writes the block entries is left only when the list is exhausted or by a failing return")
 	r.Rule("C18/R5", "the inbox listing iterates the prefix '<address>/' and notification keys start with '<to>/'")
 	prefixTyping(r, "C18/R1")
 	hs, err := p.Handlers()
@@ -142,6 +143,11 @@ func c18(r *core.Run) {
 	}
 	if h != nil {
 		successImplies(r, "C18/R6", h, "write of the notification", storeWrites("notifications", "Notification/"))
+	}
+	if hb := core.HandlerByKey(hs, "notifications.MsgBlockSenders"); hb != nil {
+		loopNotLeftEarly(r, "C18/R7", hb, "the block entry write", storeWrites("notifications", "Notification/"))
+	} else {
+		r.Undecided("C18/R7", "notifications.MsgBlockSenders:anchor-missing", "", "handler missing")
 	}
 	if hd := core.HandlerByKey(hs, "notifications.MsgDeleteNotification"); hd != nil {
 		successImplies(r, "C18/R6", hd, "delete of the notification", storeWrites("notifications", "Notification/"))
